@@ -123,6 +123,10 @@ func c12FullStack(mode int) func() {
 		if mode != 2 {
 			reconnAt = []int{-1, 1, 7}[mc.Choose(3, mc.Free)]
 		}
+		cutAt := 0
+		if mode == 1 {
+			cutAt = []int{0, 6, 11}[mc.Choose(3, mc.Free)]
+		}
 		base := 0
 		for i, s := range c12FullShapes() {
 			if i == reconnAt {
@@ -138,7 +142,15 @@ func c12FullStack(mode int) func() {
 				if i == failAt {
 					ep.WriteErr = errors.New("injected write failure")
 				}
-				ep.Inject(pack(&knxnet.TunnelReq{Channel: 7, SeqNumber: uint8(i - base), Payload: f}), nil)
+				fr := pack(&knxnet.TunnelReq{Channel: 7, SeqNumber: uint8(i - base), Payload: f})
+				if mode == 1 && cutAt > 0 && cutAt < len(fr) {
+					// TCP: the frame arrives in two segments (the header first, or cut inside the body)
+					ep.Inject(fr[:cutAt], nil)
+					mc.Sleep(1 * ms)
+					ep.Inject(fr[cutAt:], nil)
+				} else {
+					ep.Inject(fr, nil)
+				}
 				if i == failAt {
 					mc.Sleep(10 * ms)
 					ep.WriteErr = nil
